@@ -113,6 +113,6 @@ func init() {
 		return nil
 	})
 	reg(verifPkg+".NewContext", func(p *Path, _ *frame, a []Value) Value {
-		return p.newCtx(nil, true, p.boolArg(a[0]).IsTrue())
+		return p.newCtx(nil, true, p.branch(p.boolArg(a[0])))
 	})
 }
